@@ -57,6 +57,21 @@ def run(ctx, replay=None):
             kinds = sorted(set(s[0] for s in cfg["stop"]))
             ctx.violation("stop:%s:%s" % (kind, clause), "run %s: %s fails at row %d (%s) %s" % (cfg["tag"], clause, n, kinds, info.get("error") or ""),
                           {"config": cfg, "clause": clause, "row": n, "info": info})
+    # TTPCalculator relies on reset(): a solved-reset-solved model must reproduce a fresh model's run
+    from .. import c20_drv
+    pairs = []
+    for it in ("euler", "rk4"):
+        for tag, extra in (("iso", {}), ("ramp", dict(se=1e-5, temp=("array", [0, 30.0 / 3600], [1000, 1006])))):
+            pairs.append(("reset-%s-%s" % (tag, it), c20_drv.reset_pair(dict(phases=[dict(name="beta", gamma=0.05)], D=1e-16, calls=[(30.0, 0.02)], iter=it, **extra))))
+    rreached, rres = T.validate("Equiv", [], [p[1][0] for p in pairs], "c19_reset")
+    ctx.add_tlc(rres, "Equiv over %d solve-reset-solve pairs" % len(pairs))
+    if rres.violated or rreached is None:
+        raise MachineryError("Equiv failed (reset pairs)")
+    for (lab, (ev, info)), v in zip(pairs, rreached):
+        ctx.replayed += info["steps"]
+        ctx.case(lab, nontrivial=info["steps"] > 5)
+        if v["l"] != len(ev) + 1 or v["fails"]:
+            ctx.violation("stop:reset-reproduces-fresh-run:%s" % ",".join(sorted(f[0] for f in v["fails"]))[:60], "pair %s differs: %s" % (lab, v["fails"][:4]), {"pair": lab, "fails": v["fails"]})
     if stopped_early < len(jobs) // 4:
         raise MachineryError("vacuity: only %d of %d runs ever met a condition" % (stopped_early, len(jobs)))
     ctx.extra["runs_with_condition_met"] = stopped_early
